@@ -24,6 +24,16 @@ def main():
                 r = m_cuckoo.run_union(fns, unit['bs'], unit['nb'], unit['kicks'], unit.get('b_mask'))
             else:
                 r = m_cuckoo.run_single(fns, unit['op'], unit['bs'], unit['nb'], unit['kicks'])
+        elif model in ('lossy', 'heap') and unit.get('op') == 'validate':
+            import random
+            from . import m_lossy, m_heap
+            mod = m_lossy if model == 'lossy' else m_heap
+            rng = random.Random(unit.get('seed', 0))
+            r = {'paths': 0, 'queries': 0, 'failed': [], 'witnesses': {}, 'cexs': {}, 'cases': []}
+            for _ in range(unit.get('n', 20)):
+                c = mod.random_case(rng)
+                r['cases'].append({'case': c, 'encoding': mod.eval_concrete_add(fns, c)})
+                r['queries'] += 1
         elif model == 'lossy':
             from . import m_lossy
             r = m_lossy.run(fns, unit)
